@@ -554,7 +554,9 @@ def _per_machine_tables(ctx, fi: FuncInfo) -> int:
             )
             continue
         skip = ast.unparse(tg)
-        dep = (not isinstance(v, ast.Constant) and mentions(v, m, skip=skip)) or any(mentions(g, m) for g in guards)
+        # a guard that only compares with the entry being replaced (`if v < T[m]:`,
+        # the running-minimum idiom) says nothing about where v comes from
+        dep = (not isinstance(v, ast.Constant) and mentions(v, m, skip=skip)) or any(mentions(g, m, skip=skip) for g in guards)
         if dep:
             chk.ok("R07.f", fi.qualname, fi.loc(st), f"`{skip}` is computed from `{m}`")
         else:
